@@ -1,3 +1,43 @@
+mod c03;
+mod chain;
+mod drive;
+mod refval;
+mod tamper;
+mod world;
+
+use vcore::{Monitor, Tier};
+
 fn main() {
-    let _ = mithril_client::certificate_client::MemoryCertificateVerifierCache::new(chrono::TimeDelta::hours(1));
+    let args = vcore::parse_args();
+    vcore::install_panic_hook();
+    if args.prop != "C03" {
+        eprintln!("mon-chain: unknown property {}", args.prop);
+        std::process::exit(2);
+    }
+    if let Some(f) = &args.replay {
+        std::process::exit(c03::replay(f));
+    }
+    let mut mon = Monitor::new(&args);
+    let threads = vcore::default_threads();
+    // the project's fixture builder writes KES material below the temp directory on first use:
+    // do that once, single-threaded, before the shards start building chains concurrently
+    if let Err(p) = vcore::catch(chain::warm_up_fixtures) {
+        mon.inconclusive(&format!("fixture warm-up panicked: {p}"));
+    }
+    let (shards, sizes) = match args.tier {
+        Tier::Quick => (16, c03::Sizes { builder_families: 1, harness_families: 2, starts_per_family: 2, tamperings_per_start: 60 }),
+        Tier::Thorough => (64, c03::Sizes { builder_families: 3, harness_families: 5, starts_per_family: 3, tamperings_per_start: 260 }),
+    };
+    vcore::run_shards(&mut mon, shards, threads, |s, m| c03::run_shard(s, m, &sizes));
+    mon.finish(
+        "honest chains = CertificateChainBuilder families (length, certificates/epoch, chaining method, signers/epoch, parameters, signed entity types varied) + harness-built families (2-8 epochs, 1-4 certificates/epoch, per-epoch signer sets AND parameters, genesis-epoch standard certificates, three linking disciplines, random genesis key); per family several start certificates; per start a class-stratified sample of: every single-field edit of every path certificate (hash untouched / recomputed / recomputed with everything pointing to it), adversary with its own signer sets and genesis key (one certificate re-signed, adversarial suffix with 4 junction patches, whole adversarial chains), previous_hash re-targeted to every other served certificate, drop / wrong answer / swap / self-loop / 2- and 3-cycles / truncation / genesis replacement, and two explicit client-cache histories. Every scenario goes through (i) mithril-common verify_certificate_chain and (ii) mithril-client verify_chain in one of 4 cache modes. A case is non-trivial when the independent reference validator rejects it (an acceptance would be a violation); distinct = (entry point/mode, class, difference to the honest answer table, query).",
+        &[
+            "certificate hash, protocol-message digest, parameters hash and key decoding of the working tree are used as DEFINITIONS by the reference (C04 judges the hash)",
+            "multi-signature validity = ProtocolMultiSignature::verify of the working tree (C01 judges it); genesis signature = ed25519_dalek permissive verification",
+            "'identical parameters' on a same-epoch link = equal as committed (k, m, fixed-point phi_f)",
+            "hash collisions, BLS / Ed25519 forgeries not attacked",
+            "client histories: a link is resolved among the certificates the provider served for that hash in any run of the history",
+        ],
+        200,
+    );
 }
